@@ -88,13 +88,17 @@ Definition truthy (o : option dnf) : bool :=
 (* ------------------------------------------------------------------ *)
 (* extract_pq_filters                                                  *)
 (* ------------------------------------------------------------------ *)
-Fixpoint extract (t : ptree) : option dnf :=
+Definition is_ne (o : cmp) : bool := match o with CNe => true | _ => false end.
+
+(* [ok a] : is the comparison class of leaf [a] in the first isinstance test of extract_pq_filters? *)
+Fixpoint extract_gen (ok : atom -> bool) (t : ptree) : option dnf :=
   match t with
-  | PCmp a => mk [[a]]                       (* first `if` : (column, op, value) -> _Or((_And((t,)),)) *)
+  | PCmp a => if ok a then mk [[a]]          (* first `if` : (column, op, value) -> _Or((_And((t,)),)) *)
+              else None                      (* comparison class not in the isinstance tuple : `_filters` stays None *)
   | PCmpFlip _ => None                       (* the `elif` needs `not isinstance(left, Expr) and isinstance(left, Projection)` : never true *)
   | POther => None
   | PAndT l r =>
-      let ol := extract l in let or_ := extract r in
+      let ol := extract_gen ok l in let or_ := extract_gen ok r in
       if truthy ol && truthy or_ then
         match ol, or_ with
         | Some dl, Some dr => mk (normalize_and (set2 dl dr))
@@ -102,7 +106,7 @@ Fixpoint extract (t : ptree) : option dnf :=
         end
       else None
   | POrT l r =>
-      let ol := extract l in let or_ := extract r in
+      let ol := extract_gen ok l in let or_ := extract_gen ok r in
       if truthy ol && truthy or_ then
         match ol, or_ with
         | Some dl, Some dr => mk (normalize_or (set2 dl dr))
@@ -110,6 +114,14 @@ Fixpoint extract (t : ptree) : option dnf :=
         end
       else None
   end.
+
+(* OLD behaviour, `isinstance(predicate_expr, (LE, GE, LT, GT, EQ, NE))` : kept only for the refutation *)
+Definition extract_with_ne : ptree -> option dnf := extract_gen (fun _ => true).
+
+(* FIXED behaviour, `isinstance(predicate_expr, (LE, GE, LT, GT, EQ))` : a `!=` leaf is not convertible
+   (`_filters = None`), exactly like POther, and so poisons an enclosing And/Or *)
+Definition ne_ok (a : atom) : bool := negb (is_ne (a_op a)).
+Definition extract : ptree -> option dnf := extract_gen ne_ok.
 
 (* ------------------------------------------------------------------ *)
 (* combine                                                             *)
